@@ -257,7 +257,17 @@ def dispatch_table(ff: FuncFacts, subject: str, consts: Dict[str, object], site:
                 v = path[i].ast.value if path[i].kind == 'return' else None
                 if isinstance(v, ast.Await):
                     v = v.value
-                res.append(('call', callee, tuple(args_), tuple(sorted(kws_.items())), path[i], c, v is c))
+                returned = v is c
+                if not returned:
+                    # ``result = call(...)`` ... ``return result``: what the path's return statement hands back, locals followed
+                    rets_ = [(j, m_) for j, m_ in enumerate(path) if m_.kind == 'return' and m_.ast.value is not None and j > i]
+                    if rets_:
+                        j, m_ = rets_[-1]
+                        rv = value_on_path(path, j, m_.ast.value)
+                        if isinstance(rv, ast.Await):
+                            rv = rv.value
+                        returned = norm(rv) == norm(value_on_path(path, i, c))
+                res.append(('call', callee, tuple(args_), tuple(sorted(kws_.items())), path[i], c, returned))
             else:
                 rets = [m_ for m_ in path if m_.kind == 'return']
                 res.append(('return', norm(rets[-1].ast.value) if rets and rets[-1].ast.value is not None else 'None'))
